@@ -25,6 +25,11 @@ pub async fn run_suite(seed: u64, cases: usize, only: Option<usize>) -> String {
       *stats.entry("overflow-cases".into()).or_insert(0) += 1;
       continue;
     }
+    if case % 8 == 6 {
+      sustained_case(case, &mut r, &mut fails, &mut t).await;
+      *stats.entry("sustained-cases".into()).or_insert(0) += 1;
+      continue;
+    }
     let nslow = if case == 0 { 2 } else { r.range(1, 3) as usize };
     let flood = if case == 0 { 300 } else { *r.pick(&[50u32, 140, 200, 300]) };
     let pipe = if case == 0 { 64 } else { *r.pick(&[64usize, 256, 4096]) };
@@ -247,6 +252,139 @@ async fn overflow_case(case: usize, r: &mut Rng, fails: &mut Vec<(usize, String)
         fails.push((case, format!("C02: [missing-delivery] healthy member (connection {k}) received {} of {n} acknowledged broadcasts", got.len())));
       }
     }
+  }
+}
+
+/// A consumer that keeps reading, but slower than the publisher sends (64 bytes per broadcast of ~200), behind a small pipe
+/// and a small outbound queue, while the traffic never pauses: its queue is never empty when its writer finishes a batch.  It
+/// must be disconnected with OUTBOUND_QUEUE_FULL while the traffic is still flowing (not only once the queue has drained), the
+/// publisher is acknowledged every time, and the healthy member receives everything in order.
+async fn sustained_case(case: usize, r: &mut Rng, fails: &mut Vec<(usize, String)>, t: &mut String) {
+  let mut cfg = SrvCfg::default();
+  cfg.max_connections = 8;
+  cfg.max_inflight = 1000;
+  cfg.queue = *r.pick(&[2u32, 4, 8]);
+  cfg.max_clients = 10;
+  cfg.keep_alive_ms = 3_600_000;
+  cfg.request_timeout_ms = 3_600_000;
+  let mut srv = Srv::new(cfg.clone()).await;
+  let n = 2400 + 2 * r.below(50) as u32; // two broadcasts per step: the publisher is always faster than the slow member
+  let sip = 256usize;
+  let _ = writeln!(t, "case {case} sustained queue={} broadcasts={n} sip={sip}", cfg.queue);
+  let slow = srv.open_cap(256);
+  srv.send(slow, b"CONNECT version=1\nIDENTIFY username=slow\nJOIN id=1 channel=!o@localhost\n").await;
+  let mut joined = false;
+  for _ in 0..40 {
+    srv.settle(1).await;
+    if drain_one(&mut srv, slow).await.iter().any(|f| matches!(f.msg, Message::JoinChannelAck(_))) {
+      joined = true;
+      break;
+    }
+  }
+  if !joined {
+    fails.push((case, format!("C15: [pressure-setup] slow member {slow} could not join")));
+    return;
+  }
+  let h = srv.open();
+  srv.send(h, b"CONNECT version=1\nIDENTIFY username=h0\nJOIN id=1 channel=!o@localhost\n").await;
+  srv.settle(2).await;
+  let _ = drain_one(&mut srv, h).await;
+  let p = srv.open();
+  srv.send(p, b"CONNECT version=1\nIDENTIFY username=pub\nJOIN id=1 channel=!o@localhost\n").await;
+  srv.settle(2).await;
+  let _ = drain_one(&mut srv, p).await;
+  let _ = drain_one(&mut srv, h).await;
+  // (the slow member's own EVENTs are left in its pipe: it only ever sips)
+  let mut seen: Vec<String> = Vec::new();
+  let mut slow_bytes: Vec<u8> = Vec::new();
+  let mut slow_eof = false;
+  let mut closed_at: Option<u32> = None;
+  for i in 0..n {
+    let body = format!("payload-{i:04}-{}", "x".repeat(180));
+    srv.send(p, format!("BROADCAST id={} channel=!o@localhost length={}\n{body}\n", i + 10, body.len()).as_bytes()).await;
+    if i % 2 == 0 {
+      continue;
+    }
+    srv.settle(1).await;
+    let frames = drain_one(&mut srv, p).await;
+    if !(frames.iter().any(|f| matches!(&f.msg, Message::BroadcastAck(a) if a.id == i + 10)) && frames.iter().any(|f| matches!(&f.msg, Message::BroadcastAck(a) if a.id == i + 9))) {
+      let what: Vec<String> = frames.iter().map(|f| f.text.clone()).collect();
+      fails.push((case, format!("C15: [overflow-hurts-publisher] broadcast #{i} (queue size {}, one member reading slowly) was not acknowledged to the publisher; it received {what:?}", cfg.queue)));
+      return;
+    }
+    for f in drain_one(&mut srv, h).await {
+      if let Message::Message(_) = &f.msg {
+        seen.push(String::from_utf8_lossy(f.payload.as_deref().unwrap_or(&[])).chars().take(12).collect());
+      }
+    }
+    // the slow member sips
+    if !slow_eof {
+      if let Some(c) = srv.clients.get_mut(&slow) {
+        if let Some(s) = c.stream.as_mut() {
+          use tokio::io::AsyncReadExt;
+          let mut buf = vec![0u8; sip];
+          match tokio::time::timeout(std::time::Duration::from_millis(0), s.read(&mut buf)).await {
+            Ok(Ok(0)) | Ok(Err(_)) => slow_eof = true,
+            Ok(Ok(m)) => slow_bytes.extend_from_slice(&buf[..m]),
+            Err(_) => {},
+          }
+        }
+      }
+      if slow_eof && closed_at.is_none() {
+        closed_at = Some(i);
+      }
+    }
+  }
+  // the traffic stops; the slow member now reads everything that is still coming
+  for _ in 0..400 {
+    if slow_eof {
+      break;
+    }
+    srv.settle(1).await;
+    if let Some(c) = srv.clients.get_mut(&slow) {
+      if let Some(s) = c.stream.as_mut() {
+        use tokio::io::AsyncReadExt;
+        let mut buf = vec![0u8; 65536];
+        match tokio::time::timeout(std::time::Duration::from_millis(0), s.read(&mut buf)).await {
+          Ok(Ok(0)) | Ok(Err(_)) => slow_eof = true,
+          Ok(Ok(m)) => slow_bytes.extend_from_slice(&buf[..m]),
+          Err(_) => {},
+        }
+      }
+    }
+  }
+  let text = String::from_utf8_lossy(&slow_bytes).to_string();
+  let told = text.contains("OUTBOUND_QUEUE_FULL");
+  // which broadcasts reached it, in order
+  let got: Vec<u32> = text.match_indices("payload-").filter_map(|(i, _)| text.get(i + 8..i + 12).and_then(|d| d.parse::<u32>().ok())).collect();
+  let first_gap = got.iter().enumerate().position(|(i, v)| *v != i as u32);
+  let after_gap = first_gap.map(|g| got.len() - g).unwrap_or(0);
+  let _ = writeln!(t, "  slow member: {} bytes read, eof={slow_eof} closed-during-traffic-at={closed_at:?} told={told} frames={} first_gap={first_gap:?} after_gap={after_gap}", slow_bytes.len(), got.len());
+  if closed_at.is_none() && first_gap.is_some_and(|g| g < 60) {
+    // (with the unchanged code the close branch of the connection loop is polled after every batch, i.e. dozens of times during
+    // this traffic, and taken with probability 1/2 each time)
+    fails.push((case, format!(
+      "C15: [slow-consumer-kept-alive] a member reading at most {sip} bytes per step while ~420 bytes per step were published (outbound queue {}) first lost a frame at #{} but was still being served {} steps later, for as long as the traffic lasted ({after_gap} more frames, with silent gaps); it was disconnected only once the traffic stopped",
+      cfg.queue,
+      first_gap.unwrap_or(0),
+      n / 2
+    )));
+  } else if !slow_eof || !told {
+    fails.push((case, format!(
+      "C15: [slow-consumer-never-disconnected] a member reading at most {sip} bytes per step behind a 256-byte pipe (outbound queue {}) was offered {n} broadcasts of ~200 bytes, two per step; its queue overflowed but it was never disconnected with OUTBOUND_QUEUE_FULL (eof={slow_eof}, told={told})",
+      cfg.queue
+    )));
+  }
+  srv.settle(5).await;
+  for f in drain_one(&mut srv, h).await {
+    if let Message::Message(_) = &f.msg {
+      seen.push(String::from_utf8_lossy(f.payload.as_deref().unwrap_or(&[])).chars().take(12).collect());
+    }
+  }
+  let want: Vec<String> = (0..n).map(|i| format!("payload-{i:04}")).collect();
+  if seen != want {
+    fails.push((case, format!("C15: [overflow-hurts-others] healthy member received {} of {n} acknowledged broadcasts while another member read slowly", seen.len())));
+    fails.push((case, format!("C02: [missing-delivery] healthy member received {} of {n} acknowledged broadcasts", seen.len())));
   }
 }
 
